@@ -441,11 +441,14 @@ func (s *slowRequestLeapArray) NewEmptyBucket() interface{} {
 }
 
 func (s *slowRequestLeapArray) ResetBucketTo(bw *sbase.BucketWrap, startTime uint64) *sbase.BucketWrap {
-	atomic.StoreUint64(&bw.BucketStart, startTime)
+	// Replace the expired counter before publishing the new start time: a completion that already sees
+	// the bucket as current must not add to a counter object that is discarded a moment later (and a
+	// reader must not take the expired counts for current ones).
 	bw.Value.Store(&slowRequestCounter{
 		slowCount:  0,
 		totalCount: 0,
 	})
+	atomic.StoreUint64(&bw.BucketStart, startTime)
 	return bw
 }
 
@@ -627,11 +630,12 @@ func (s *errorCounterLeapArray) NewEmptyBucket() interface{} {
 }
 
 func (s *errorCounterLeapArray) ResetBucketTo(bw *sbase.BucketWrap, startTime uint64) *sbase.BucketWrap {
-	atomic.StoreUint64(&bw.BucketStart, startTime)
+	// (see slowRequestLeapArray.ResetBucketTo: the fresh counter first, then the new start time)
 	bw.Value.Store(&errorCounter{
 		errorCount: 0,
 		totalCount: 0,
 	})
+	atomic.StoreUint64(&bw.BucketStart, startTime)
 	return bw
 }
 
